@@ -39,7 +39,19 @@ pub fn calculate_shift<F: RawFloat>(power2: i32) -> i32 {
 #[cfg(feature = "power-of-two")]
 pub fn calculate_power2<F: RawFloat, const FORMAT: u128>(exponent: i64, ctlz: u32) -> i32 {
     let format = NumberFormat::<{ FORMAT }> {};
-    exponent as i32 * log2(format.exponent_base()) + F::EXPONENT_BIAS - ctlz as i32
+    // Saturate rather than wrap: beyond this every float is zero or infinite, and the
+    // callers negate and add to the result.
+    let power2 = exponent.saturating_mul(log2(format.exponent_base()) as i64)
+        + F::EXPONENT_BIAS as i64
+        - ctlz as i64;
+    const LIMIT: i64 = (i32::MAX / 2) as i64;
+    if power2 > LIMIT {
+        LIMIT as i32
+    } else if power2 < -LIMIT {
+        -LIMIT as i32
+    } else {
+        power2 as i32
+    }
 }
 
 /// Bias for marking an invalid extended float.
